@@ -358,15 +358,10 @@ theorem exportPointsFrom_loop (ids : List (String × Int)) (hn : IdsNodup ids) (
 
 theorem cameraModels_lookup : ∀ e ∈ cameraModels,
     modelId? e.1 = some e.2.1 ∧ modelName? e.2.1 = some e.1 ∧ paramCount? e.1 = some e.2.2 := by
-  intro e he
-  simp only [cameraModels, List.mem_cons, List.not_mem_nil, or_false] at he
-  rcases he with h | h | h | h | h | h | h | h | h | h | h <;> subst h <;>
-    simp [modelId?, modelName?, paramCount?, cameraModels, modelIdIn, modelNameIn, paramCountIn]
+  decide +kernel
 
 theorem cameraModels_not_unknown : ∀ e ∈ cameraModels, e.1 ≠ "UNKNOWN_CAMERA" := by
-  intro e he
-  simp only [cameraModels, List.mem_cons, List.not_mem_nil, or_false] at he
-  rcases he with h | h | h | h | h | h | h | h | h | h | h <;> subst h <;> simp
+  decide +kernel
 
 /-! ## poses -/
 
